@@ -6,19 +6,24 @@ package main
 // near misses; a seeded byte-level mutator adds up to three edits.
 
 import (
+	"bufio"
 	"bytes"
 	"context"
 	"encoding/base64"
+	"encoding/hex"
+	"encoding/json"
 	"fmt"
 	"io"
 	"net/http"
 	"net/http/httptest"
 	"net/url"
+	"os"
 	"strings"
 	"sync"
 	"time"
 
 	"google.golang.org/grpc"
+	"google.golang.org/grpc/metadata"
 	"google.golang.org/protobuf/proto"
 	"google.golang.org/protobuf/reflect/protoreflect"
 	"google.golang.org/protobuf/types/dynamicpb"
@@ -26,13 +31,65 @@ import (
 )
 
 type HostileEv struct {
-	Ev     string `json:"ev"`
+	Ev     string `json:"ev"` // Hostile (generated neighbourhood) | Entry (abstract request from Entry.tla) | Ws (socket session)
 	Case   int    `json:"case"`
 	Entry  string `json:"entry"`
 	Desc   string `json:"desc"`
 	Opts   string `json:"opts"`
 	Status int    `json:"status"`
 	Crash  string `json:"crash"` // "" | panic text | hang
+	// response shape
+	CT         string `json:"ct"`         // class of the response content type: grpc | web | webtext | json | proto | plain | other | ""
+	GrpcStatus int    `json:"grpcstatus"` // -1: none
+	FramesOK   bool   `json:"framesok"`   // gRPC / gRPC-web body is a sequence of whole frames
+	ErrBody    string `json:"errbody"`    // for HTTP >= 400: status | twirp | plain | other
+	Invoked    int    `json:"invoked"`    // times the service implementation was entered for this request
+	// Entry events: the abstract request and the model's answer
+	Rq   *EntryRq   `json:"rq,omitempty"`
+	Want *EntryResp `json:"want,omitempty"`
+	// Ws events
+	Upgraded bool     `json:"upgraded"`
+	Frames   []string `json:"frames"` // what the server sent after the upgrade: text | binary | ping | pong | close:<code>:<reasonlen> | bad:<why>
+	Returned bool     `json:"returned"`
+}
+
+type EntryRq struct {
+	H2   bool   `json:"h2"`
+	CT   string `json:"ct"`
+	Meth string `json:"meth"`
+	Genc string `json:"genc"`
+	To   string `json:"to"`
+	Path string `json:"path"`
+	Upg  bool   `json:"upg"`
+}
+type EntryResp struct {
+	Class  string `json:"class"`
+	Status int    `json:"status"`
+}
+type EntryCase struct {
+	Rq      EntryRq   `json:"rq"`
+	Resp    EntryResp `json:"resp"`
+	Invoked int       `json:"invoked"`
+}
+
+// HostileReq is the concrete request of an event, written to the side file for replay.
+type HostileReq struct {
+	Case    int               `json:"case"`
+	Kind    string            `json:"kind"` // Hostile | Entry | Ws
+	Entry   string            `json:"entry"`
+	Desc    string            `json:"desc"`
+	Method  string            `json:"method"`
+	Path    string            `json:"path"`
+	Query   string            `json:"query"`
+	Hdr     map[string]string `json:"hdr"`
+	BodyHex string            `json:"bodyhex"`
+	HasBody bool              `json:"hasbody"`
+	H2      bool              `json:"h2"`
+	Opts    int               `json:"opts"` // index into hostileOptSets
+	Rq      *EntryRq          `json:"rq,omitempty"`
+	Want    *EntryResp        `json:"want,omitempty"`
+	WsHex   []string          `json:"wshex,omitempty"` // Ws: raw bytes written after the upgrade, one write per element
+	WsWait  bool              `json:"wswait,omitempty"`
 }
 
 func hostileService() ServiceSpec {
@@ -53,8 +110,26 @@ func hostileService() ServiceSpec {
 var hostileOptSets = [][]string{{}, {"stats"}, {"unaryInt", "streamInt"}, {"unaryInt", "streamInt", "stats"}}
 
 type hostileEnv struct {
-	mux  *larking.Mux
-	opts string
+	mux     *larking.Mux
+	opts    string
+	mu      sync.Mutex
+	entered map[string]int
+}
+
+func (e *hostileEnv) enter(ctx context.Context) {
+	md, _ := metadata.FromIncomingContext(ctx)
+	if v := md.Get("x-case"); len(v) > 0 {
+		e.mu.Lock()
+		e.entered[v[0]]++
+		e.mu.Unlock()
+	}
+}
+func (e *hostileEnv) enteredFor(id string) int {
+	e.mu.Lock()
+	defer e.mu.Unlock()
+	n := e.entered[id]
+	delete(e.entered, id)
+	return n
 }
 
 func newHostileEnv(opts []string) (*hostileEnv, error) {
@@ -81,10 +156,13 @@ func newHostileEnv(opts []string) (*hostileEnv, error) {
 	if err != nil {
 		return nil, err
 	}
+	he := &hostileEnv{opts: strings.Join(opts, "+"), entered: map[string]int{}}
 	un := func(ctx context.Context, full string, req *dynamicpb.Message) (proto.Message, error) {
+		he.enter(ctx)
 		return repMsg(1, 1, 3), nil
 	}
 	st := func(full string, md protoreflect.MethodDescriptor, ss grpc.ServerStream) error {
+		he.enter(ss.Context())
 		for i := 0; i < 3; i++ {
 			m := dynamicpb.NewMessage(reqDesc())
 			if err := ss.RecvMsg(m); err != nil {
@@ -101,7 +179,8 @@ func newHostileEnv(opts []string) (*hostileEnv, error) {
 	if err := larking.VerifRegisterService(mux, MakeServiceDesc(sds[0], un, st), struct{}{}); err != nil {
 		return nil, err
 	}
-	return &hostileEnv{mux: mux, opts: strings.Join(opts, "+")}, nil
+	he.mux = mux
+	return he, nil
 }
 
 type hreq struct {
@@ -235,7 +314,7 @@ func hostileRequests(r *rng, n int) []hreq {
 }
 
 func runHostile(env *hostileEnv, id int, h hreq) HostileEv {
-	ev := HostileEv{Ev: "Hostile", Case: id, Entry: h.entry, Opts: env.opts,
+	ev := HostileEv{Ev: "Hostile", Case: id, Entry: h.entry, Opts: env.opts, GrpcStatus: -1, Frames: []string{},
 		Desc: fmt.Sprintf("%s %q %q ?%q ct=%q body=%dB", h.desc, h.method, truncate(h.path, 60), truncate(h.query, 40), h.hdr["Content-Type"], len(h.body))}
 	method := h.method
 	if method == "" {
@@ -265,6 +344,8 @@ func runHostile(env *hostileEnv, id int, h hreq) HostileEv {
 			req.Header.Set(k, v)
 		}
 	}
+	cid := fmt.Sprintf("%d", id)
+	req.Header.Set("X-Case", cid)
 	if h.h2 {
 		req.ProtoMajor, req.ProtoMinor, req.Proto = 2, 0, "HTTP/2.0"
 	}
@@ -283,9 +364,13 @@ func runHostile(env *hostileEnv, id int, h hreq) HostileEv {
 	select {
 	case ev.Crash = <-done:
 		ev.Status = w.Code
+		if ev.Crash == "" {
+			shapeOfResponse(&ev, w, h)
+		}
 	case <-time.After(10 * time.Second):
 		ev.Crash = "hang"
 	}
+	ev.Invoked = env.enteredFor(cid)
 	return ev
 }
 
@@ -293,45 +378,133 @@ func init() { drivers["hostile"] = hostileMain }
 
 func hostileMain(args []string) error {
 	c := newCommon("hostile")
+	replay := c.fs.String("replay", "", "side file of concrete requests to run again (jsonl)")
+	nows := c.fs.Bool("nows", false, "skip the WebSocket sessions")
 	c.fs.Parse(args)
 	tw, err := newTraceWriter(c.out)
 	if err != nil {
 		return err
 	}
+	var side *traceWriter
+	if c.side != "" {
+		if side, err = newTraceWriter(c.side); err != nil {
+			return err
+		}
+	}
 	var envs []*hostileEnv
+	var wss []*wsServer
 	for _, o := range hostileOptSets {
 		e, err := newHostileEnv(o)
 		if err != nil {
 			return err
 		}
 		envs = append(envs, e)
+		wss = append(wss, newWsServer(e))
 	}
-	reqs := hostileRequests(newRng(c.seed, 909), c.n)
-	type job struct {
-		id  int
-		env *hostileEnv
-		h   hreq
+	defer func() {
+		for _, s := range wss {
+			s.srv.Close()
+		}
+	}()
+	var jobs []HostileReq
+	if *replay != "" {
+		f, err := os.Open(*replay)
+		if err != nil {
+			return err
+		}
+		sc := bufio.NewScanner(f)
+		sc.Buffer(make([]byte, 1<<20), 1<<26)
+		for sc.Scan() {
+			if len(bytes.TrimSpace(sc.Bytes())) == 0 {
+				continue
+			}
+			var j HostileReq
+			if err := json.Unmarshal(sc.Bytes(), &j); err != nil {
+				return err
+			}
+			jobs = append(jobs, j)
+		}
+		f.Close()
+	} else {
+		r := newRng(c.seed, 909)
+		id := 0
+		if c.cases != "" {
+			ecs, err := readEntryCases(c.cases)
+			if err != nil {
+				return err
+			}
+			for _, ec := range ecs {
+				ec := ec
+				h := concretiseEntry(ec, r)
+				id++
+				j := sideOf(id, "Entry", h, r.Intn(len(envs)))
+				j.Rq, j.Want = &ec.Rq, &ec.Resp
+				jobs = append(jobs, j)
+			}
+		}
+		for _, h := range hostileRequests(r, c.n) {
+			for o := range envs {
+				id++
+				jobs = append(jobs, sideOf(id, "Hostile", h, o))
+			}
+		}
+		if !*nows {
+			upg := map[string]string{"Upgrade": "websocket", "Connection": "Upgrade", "Sec-WebSocket-Key": "dGhlIHNhbXBsZSBub25jZQ==", "Sec-WebSocket-Version": "13"}
+			hdrs := []map[string]string{upg, upg, upg, upg, upg, upg,
+				{"Upgrade": "websocket", "Connection": "Upgrade", "Sec-WebSocket-Version": "13"},
+				{"Upgrade": "websocket", "Connection": "Upgrade", "Sec-WebSocket-Key": "dGhlIHNhbXBsZSBub25jZQ==", "Sec-WebSocket-Version": "8"},
+				{"Upgrade": "websocket", "Sec-WebSocket-Key": "dGhlIHNhbXBsZSBub25jZQ==", "Sec-WebSocket-Version": "13"},
+				{"Upgrade": "websocket", "Connection": "Upgrade", "Sec-WebSocket-Key": "short", "Sec-WebSocket-Version": "13"}}
+			paths := []string{"/h/ws/x", "/h/ws/x", "/h/ws/x", "/h/ws/x?s=y", "/h/ws/x?rn.s=1", "/h/ws/x?i=zz", "/h/ws/", "/h/ws/a/b", "/vs.H/Ws", "/h/typed/1/true/RED"}
+			for k, scr := range wsScripts(r, c.n/8+70) {
+				id++
+				j := HostileReq{Case: id, Kind: "Ws", Entry: "ws", Path: paths[0], Hdr: hdrs[0], Opts: k % len(envs), WsWait: k%5 == 4}
+				if k >= 70 {
+					j.Path, j.Hdr = paths[r.Intn(len(paths))], hdrs[r.Intn(len(hdrs))]
+				}
+				for _, wbytes := range scr {
+					j.WsHex = append(j.WsHex, hex.EncodeToString(wbytes))
+				}
+				jobs = append(jobs, j)
+			}
+		}
 	}
-	work := make(chan job, 256)
+	work := make(chan HostileReq, 256)
 	var wg sync.WaitGroup
 	for i := 0; i < 16; i++ {
 		wg.Add(1)
 		go func() {
 			defer wg.Done()
 			for j := range work {
-				tw.Emit(runHostile(j.env, j.id, j.h))
+				var ev HostileEv
+				if j.Kind == "Ws" {
+					var writes [][]byte
+					for _, hx := range j.WsHex {
+						b, _ := hex.DecodeString(hx)
+						writes = append(writes, b)
+					}
+					ev = runWs(wss[j.Opts%len(wss)], j.Case, j.Path, j.Hdr, writes, j.WsWait)
+				} else {
+					ev = runHostile(envs[j.Opts%len(envs)], j.Case, hreqOf(j))
+					ev.Ev, ev.Rq, ev.Want = j.Kind, j.Rq, j.Want
+				}
+				tw.Emit(ev)
+				if side != nil {
+					side.Emit(j)
+				}
 			}
 		}()
 	}
-	id := 0
-	for _, h := range reqs {
-		for _, e := range envs {
-			id++
-			work <- job{id, e, h}
-		}
+	for _, j := range jobs {
+		work <- j
 	}
 	close(work)
 	wg.Wait()
-	fmt.Printf("hostile: requests=%d x %d option sets, events=%d\n", len(reqs), len(envs), tw.n)
+	fmt.Printf("hostile: jobs=%d events=%d\n", len(jobs), tw.n)
+	if side != nil {
+		if err := side.Close(); err != nil {
+			return err
+		}
+	}
 	return tw.Close()
 }
